@@ -9,7 +9,8 @@ import (
 	"golang.org/x/tools/go/ssa"
 )
 
-var trackRe = regexp.MustCompile(`\b(ncalls|lastres|lastarg|lastbytes)\(\s*([A-Za-z_][A-Za-z0-9_$]*)`)
+var trackRe = regexp.MustCompile(`\b(ncalls|lastres|lastarg|lastbytes|calledwitharg)\(\s*([A-Za-z_][A-Za-z0-9_$]*)`)
+var argSetRe = regexp.MustCompile(`\bcalledwitharg\(\s*([A-Za-z_][A-Za-z0-9_$]*)\s*,\s*(\d+)`)
 
 func modeOf(arith, floats string) Mode {
 	return Mode{BV: arith == "bv", FPOrder: floats == "order"}
@@ -58,6 +59,14 @@ func (e *Engine) VerifyFunc(b Bound) (u *Unit) {
 			for _, m := range trackRe.FindAllStringSubmatch(cl.Src, -1) {
 				u.trackCalls[m[2]] = true
 			}
+			for _, m := range argSetRe.FindAllStringSubmatch(cl.Src, -1) {
+				u.trackArgSets[m[1]+"."+m[2]] = true
+			}
+		}
+	}
+	for _, cl := range append(append([]Clause{}, c.Requires...), c.Ensures...) {
+		for _, m := range argSetRe.FindAllStringSubmatch(cl.Src, -1) {
+			u.trackArgSets[m[1]+"."+m[2]] = true
 		}
 	}
 	fr := u.newFrame(fn, 0, nil)
